@@ -253,6 +253,7 @@ prop("C10", "c10",
       dict(run="^TestJWTFinalizerCaching$", quick=600, thorough=3000, shards_thorough=1),
       dict(run="^TestClientCredentialsTokenCaching$", quick=1500, thorough=30000, shards_thorough=3),
       dict(run="^TestHTTPResponseCaching$", quick=1500, thorough=40000, shards_thorough=3),
+      dict(run="^TestRuleLevelTTLBoundsWhatARuleTakesFromTheCache$", quick=600, thorough=12000, shards_thorough=2),
       dict(run="^TestConfiguredTTLBoundsSubjectHandlerCaches$", quick=1200, thorough=6000, shards_thorough=1)],
      ["expiry is checked through the TTL handed to the cache, not by waiting", "internal safety margins of the mechanisms are not asserted (only the bounds of the statement)",
       "no heuristic freshness is expected for responses without explicit expiration information"],
